@@ -77,10 +77,10 @@ macro_rules! c19_vec {
 }
 /// C19 FromCp437 for Vec<u8> and &[u8]: for every 1-byte string the result is the UTF-8
 /// encoding (independent encoder) of the CPython-table code points, in order.
-// @h prop=C19 tier=quick t=600 mem=8 name=c19_from_cp437_len1
+// @h prop=C19 tier=quick t=300 mem=4 name=c19_from_cp437_len1
 c19_vec!(c19_from_cp437_len1, 1, 5);
 /// C19 FromCp437, every 2-byte string.
-// @h prop=C19 tier=quick t=900 mem=10 name=c19_from_cp437_len2
+// @h prop=C19 tier=quick t=540 mem=6 name=c19_from_cp437_len2
 c19_vec!(c19_from_cp437_len2, 2, 8);
 /// C19 FromCp437, every 3-byte string.
 // @h prop=C19 tier=thorough t=1800 mem=16 name=c19_from_cp437_len3
